@@ -125,3 +125,35 @@ def hmean_stub(ctx, name="scipy.stats.hmean(a, axis=1) = n / sum(1/a_i) for posi
         inv.flat = [1 / (e if is_sym(e) else Sym(lift(e))) for e in a.flat]
         return n / np.sum(inv, axis=axis)
     return hmean
+
+
+def cv2_resize_area_stub(ctx, name="cv2.resize(src, (w, h), interpolation=INTER_AREA) with integer ratios: block mean (down-sampling) / repetition (up-sampling) per axis"):
+    """Assumed contract of OpenCV's area interpolation for integer ratios (confirmed on OpenCV 4.11 by the bounded
+    validation C03.dep_resize).  Non-integer ratios have no contract (=> Unsupported => obligation undecided)."""
+    import cv2
+    from .sym import Unsupported
+
+    def resize(src, dsize, dst=None, fx=None, fy=None, interpolation=None, **k):
+        src_a = np.asarray(src)
+        if not _has_sym(src_a):
+            return cv2.resize(src_a.astype(float) if src_a.dtype == object else src_a, dsize, interpolation=interpolation)
+        ctx.stub_used(name)
+        if interpolation != cv2.INTER_AREA:
+            raise Unsupported("cv2.resize stub: only INTER_AREA has an assumed contract")
+        w, h = int(dsize[0]), int(dsize[1])
+        out = src_a
+        for axis, new in ((0, h), (1, w)):
+            old = out.shape[axis]
+            if new == old:
+                continue
+            if old % new == 0:
+                r = old // new
+                shp = list(out.shape)
+                shp[axis:axis + 1] = [new, r]
+                out = np.sum(out.reshape(shp), axis=axis + 1) / r
+            elif new % old == 0:
+                out = np.repeat(out, new // old, axis=axis)
+            else:
+                raise Unsupported("cv2.resize stub: non-integer resampling ratio")
+        return out
+    return resize
